@@ -79,8 +79,25 @@ def build_app():
     return Application(routes, middlewares=[Provider()])
 
 
+BURST = 520        # more distinct URLs than any small per-process memo holds
+
+
+def serve_burst(app):
+    """one client walking over many distinct URLs of one resource (a crawler, a scanner): all must be answered"""
+    from harness import wsgi
+    bad = []
+    for k in range(1, BURST + 1):
+        r = wsgi.call(app, wsgi.environ('/branch' + '/' * k))
+        want = 200 if k == 1 else 302
+        if r.exc is not None or r.code != want:
+            bad.append([k, r.code, type(r.exc).__name__ if r.exc else None])
+    return {'status': 'burst', 'body': bad[:3], 'ctype': None, 'loc': None, 'tok': None, 'rid': None, 'exc': None}
+
+
 def serve(app, name):
     from harness import wsgi
+    if name == 'burst':
+        return serve_burst(app)
     method, path = REQUESTS[name][:2]
     headers = REQUESTS[name][2] if len(REQUESTS[name]) > 2 else None
     r = wsgi.call(app, wsgi.environ(path, method=method, headers=headers))
@@ -117,7 +134,7 @@ class Scheduler(object):
                 out = {}
                 t = threading.Thread(target=lambda: out.update(serve(self.app, name)))
                 t.start()
-                t.join(20)
+                t.join(120 if name == 'burst' else 20)
                 out['_hung'] = t.is_alive()
                 self.results_b.append((name, out))
         return self.local
@@ -170,18 +187,20 @@ def impl(case):
     else:
         plans = []
     for plan in plans:
-        for temp in ('cold', 'warm'):
+        for temp in (('warm',) if 'burst' in case['bs'] else ('cold', 'warm')):
             the_app = build_app() if temp == 'cold' else app
             cold_ids = []
             s = Scheduler(the_app, case['a'], [], plan)
             ra, _ = s.run()
             out['schedules'] += 1
-            (ids if temp == 'warm' else cold_ids).append(ra.get('rid'))
+            ids.append(ra.get('rid'))          # unique within the PROCESS: across all application objects, cold and warm
+            cold_ids.append(ra.get('rid'))
             if ra.get('_hung') or mask(ra) != solo[case['a']]:
                 out['violations'].append({'plan': sorted(plan.items()), 'app': temp, 'where': s.where, 'thread': 'A', 'request': case['a'],
                                           'got': ra, 'solo': solo[case['a']]})
             for name, rb in s.results_b:
-                (ids if temp == 'warm' else cold_ids).append(rb.get('rid'))
+                ids.append(rb.get('rid'))
+                cold_ids.append(rb.get('rid'))
                 if rb.get('_hung') or mask(rb) != solo[name]:
                     out['violations'].append({'plan': sorted(plan.items()), 'app': temp, 'where': s.where, 'thread': 'B', 'request': name,
                                               'got': rb, 'solo': solo[name]})
@@ -236,6 +255,11 @@ def run(rep, b, tier, seed, only_cases=None):
             cases.append({'mode': 'single', 'a': a, 'bs': [c]})
             if tier != 'quick':
                 cases.append({'mode': 'single', 'a': c, 'bs': [a]})
+        # a long walk over distinct URLs of a branch route arrives while another request for that route is in flight
+        cases.append({'mode': 'single', 'a': 'redir', 'bs': ['burst']})
+        if tier != 'quick':
+            cases.append({'mode': 'single', 'a': 'redir_beta', 'bs': ['burst']})
+            cases.append({'mode': 'single', 'a': 'item1', 'bs': ['burst']})
         for _ in range(6 if tier == 'quick' else 60):
             a = rng.choice(sorted(REQUESTS))
             cases.append({'mode': 'multi', 'a': a, 'bs': [rng.choice(sorted(REQUESTS)) for _ in range(rng.choice([2, 3]))], 'seed': rng.randrange(10 ** 6),
